@@ -232,7 +232,7 @@ func visitInstr(fr *frame, instr ssa.Instruction) continuation {
 		default:
 			var res []value
 			for _, r := range instr.Results {
-				res = append(res, fr.get(r))
+				res = append(res, returnOperand(fr, instr, r))
 			}
 			fr.result = tuple(res)
 		}
@@ -679,3 +679,43 @@ func doRecover(caller *frame) value {
 	return iface{}
 }
 
+
+// returnOperand evaluates one operand of a multi-value return. go/ssa evaluates the
+// operands of "return x, f()" strictly left to right, i.e. it loads the variable x before
+// calling f. The gc compiler performs the calls first and loads plain variables
+// afterwards (the language leaves this order unspecified), and DAWGS relies on that in
+// "return paths, Traversal(tx, plan, func(...) { paths.AddPath(...) })". To match the
+// compiled program, a result that is a load of a variable issued in the same block before
+// a later call is re-loaded at the return.
+func returnOperand(fr *frame, ret *ssa.Return, r ssa.Value) value {
+	un, ok := r.(*ssa.UnOp)
+	if !ok || un.Op != token.MUL || un.Block() != ret.Block() {
+		return fr.get(r)
+	}
+	if _, isAlloc := un.X.(*ssa.Alloc); !isAlloc {
+		if _, isFree := un.X.(*ssa.FreeVar); !isFree {
+			return fr.get(r)
+		}
+	}
+	seenLoad, callAfter := false, false
+	for _, in := range ret.Block().Instrs {
+		if in == ssa.Instruction(un) {
+			seenLoad = true
+			continue
+		}
+		if seenLoad {
+			if _, isCall := in.(*ssa.Call); isCall {
+				callAfter = true
+				break
+			}
+		}
+	}
+	if !callAfter {
+		return fr.get(r)
+	}
+	addr, ok := fr.get(un.X).(*value)
+	if !ok {
+		return fr.get(r)
+	}
+	return load(typeparams.MustDeref(un.X.Type()), addr)
+}
